@@ -344,14 +344,17 @@ def run(ctx):
     fph = ctx.fn1("Oomd::Engine::Engine::firePrekillHook")
     lh = loops(fph)
     sw = search_walks(fph)
-    if not ((len(lh) == 1 and not sw) or (not lh and len(sw) == 1)):
-        ctx.violation("firePrekillHook:loop", "anchor", fph.loc(), "expected one loop (or one std::find_if) over the hook list")
-    else:
-        hdr = loop_header(fph, lh[0]) if lh else fph.text(sw[0]["call"])
-        wk = loop_walk(fph, lh[0]) if lh else sw[0]
-        ctx.check(wk is not None and wk["dir"] == "backward" and wk["container"] == "this->prekill_hooks_in_reverse_order_",
-                  "firePrekillHook:reverse-traversal", "loop-shape", fph.loc(lh[0]["stmt"]) if lh else fph.loc(sw[0]["call"]),
-                  "the reverse-ordered list is walked from its back", "walk is " + hdr[:120])
+    if True:
+        wk = None
+        if not ((len(lh) == 1 and not sw) or (not lh and len(sw) == 1)):
+            # no walk to judge the order by (a 'loop' whose body always returns is not a loop): the fire sites are still judged below
+            ctx.violation("firePrekillHook:loop", "anchor", fph.loc(), "expected one loop (or one std::find_if) over the hook list")
+        else:
+            hdr = loop_header(fph, lh[0]) if lh else fph.text(sw[0]["call"])
+            wk = loop_walk(fph, lh[0]) if lh else sw[0]
+            ctx.check(wk is not None and wk["dir"] == "backward" and wk["container"] == "this->prekill_hooks_in_reverse_order_",
+                      "firePrekillHook:reverse-traversal", "loop-shape", fph.loc(lh[0]["stmt"]) if lh else fph.loc(sw[0]["call"]),
+                      "the reverse-ordered list is walked from its back", "walk is " + hdr[:120])
         fl = Flow(P, fph, cg=ctx.cg)
         fire = fph.calls("PrekillHook::fire")
         ctx.counters["engine_fire_sites"] = len(fire)
@@ -384,7 +387,8 @@ def run(ctx):
                     t = fph.text(init_)
                 m_ = re.match(wk["elem"], t)
                 return m_ is not None and re.match(r"^(\.|->)?hook$", t[m_.end():]) is not None
-            ctx.check(bool(tested) and all(t_ == fired for t_ in tested) and of_element(fired),
+            fired_h = arrow(re.sub(r"(->|\.)$", "", hoist_text(fph, fph.nodes[i]["recv"], P)))
+            ctx.check(bool(tested) and all(t_ in (fired, fired_h) for t_ in tested) and (of_element(fired) or of_element(fired_h)),
                       "fire-the-tested-hook", "provenance", fph.loc(i), "the hook fired is the one tested", "fires another hook than the one tested")
     ohk = ctx.fn1("Oomd::OomdContext::firePrekillHook")
     calls = [i for i in ohk.calls() if ohk.nodes[i].get("op") == "()" and "prekill_hook_handler_" in ohk.text(ohk.nodes[i].get("recv", -1))]
